@@ -27,7 +27,7 @@ fn gen_name(rng: &mut Rng, uniq: usize) -> String {
         11 => format!("dir{}\\", uniq),
         12 => format!("\"D:\\runs\\sample {}\\\"", uniq),
         13 => format!("p{}\\\"q r\"", uniq),
-        14 => format!("\"line{}\r\nnext\r\"", uniq),
+        14 => if rng.chance(1, 2) { format!("\"line{}\r\nnext\r\"", uniq) } else { format!("\"run {}\n#2 of 3\"", uniq) },
         0..=5 => format!("{}{}", rng.pick(&plain), uniq),
         6 => format!("\"{} {}\"", rng.pick(&plain), uniq),
         7 => format!("\"a(b),c:d;[e]{}\"", uniq),
@@ -40,7 +40,7 @@ fn gen_name(rng: &mut Rng, uniq: usize) -> String {
 
 fn gen_comment(rng: &mut Rng) -> String {
     // line breaks of either convention inside a comment are part of the comment (CR LF is not "normalised")
-    let c = ["c", "&&NHX:S=human:E=1.1.1.1", "a b", "(x,y);", "\"", "[[", "é ü", ":1.5", " ", "two\r\nlines", "\r\n", "cr\ronly", "lf\nonly", "a\r\n\r\nb\n\r"];
+    let c = ["c", "&&NHX:S=human:E=1.1.1.1", "a b", "(x,y);", "\"", "[[", "é ü", ":1.5", " ", "two\r\nlines", "\r\n", "cr\ronly", "lf\nonly", "a\r\n\r\nb\n\r", "run 7\n#2 of 3\nseed 11", "\n# header", "#x"];
     if rng.chance(1, 2) { rng.pick(&c).to_string() } else { rng.pick(MAGIC_COMMENTS).to_string() }
 }
 
@@ -207,6 +207,28 @@ fn do_job(job: Job, driver: &str, rep: &mut Report) {
                             rep.oracle("write", "to_newick-vs-AllFields", &case, &w1);
                         }
                         texts.push(w1.clone());
+                        // the same round trip through a FILE: `to_file` writes exactly this text and `from_file` reads back exactly
+                        // what parsing this text gives (whatever the text holds: line breaks, lines that start with `#`, ...)
+                        if rng.chance(1, 6) {
+                            let path = std::env::temp_dir().join(format!("pvh-c01-{}-{}.nwk", std::process::id(), rng.next() % 1_000_000_000));
+                            let t3 = tree.clone();
+                            let p3 = path.clone();
+                            let fr = guarded(std::panic::AssertUnwindSafe(move || t3.to_file(&p3).map_err(|e| format!("{e:?}")).and_then(|_| Tree::from_file(&p3).map_err(|e| format!("{e:?}")))));
+                            let on_disk = std::fs::read_to_string(&path).unwrap_or_default();
+                            let _ = std::fs::remove_file(&path);
+                            rep.count("roundtrip:through-a-file");
+                            let want = strip(&r, 0).canon();
+                            match fr {
+                                Err(_) => rep.oracle("roundtrip", "file:panic", &case, &w1),
+                                Ok(Err(e)) => rep.oracle("roundtrip", "file:error", &case, &format!("{w1:?}: {e}")),
+                                Ok(Ok(p)) => {
+                                    let got = rose_of_tree(&p).map(|x| x.canon()).unwrap_or_default();
+                                    if got != want || on_disk != w1 {
+                                        rep.oracle("roundtrip", "file:tree-or-content-differs", &case, &format!("file {on_disk:?} for text {w1:?}: expected {want} got {got}"));
+                                    }
+                                }
+                            }
+                        }
                     }
                     let w1c = w1.clone();
                     match guarded(move || Tree::from_newick(&w1c)) {
